@@ -142,6 +142,9 @@ var specKeys = []string{"alg", "cty", "crit", "io.cncf.notary.expiry", "io.cncf.
 func genExtEntry(k string) (interface{}, bool) {
 	switch k {
 	case "alg":
+		if algInMapAsked {
+			return vAlg, algInMap
+		}
 		return vAlg, rt.Choose("alg.in.map", 2) == 1
 	case "cty":
 		return vCty, rt.Choose("cty.in.map", 2) == 1
@@ -167,6 +170,8 @@ func genExtEntry(k string) (interface{}, bool) {
 }
 
 var headerPtr *jwsProtectedHeader
+var jwtView *jwsProtectedHeader
+var algInMap, algInMapAsked bool
 
 func theHeader() *jwsProtectedHeader { return headerPtr }
 
@@ -209,8 +214,33 @@ func stubJSONUnmarshal(data []byte, v any) error {
 		headerPtr = p
 		return nil
 	case *map[string]interface{}:
+		if !structDecoded {
+			// golang-jwt decodes the header before the repo does: fix the text the views belong to
+			structDecoded = true
+			protectedBytes = data
+			structErr = rt.Choose("protected.json.err", 2) == 1
+		}
 		if !rt.Same(protectedBytes, data) {
 			rt.Fail("map view of a text other than the protected header")
+		}
+		if structErr {
+			// a text that the struct view rejects may still be a JSON object (wrong kind under a specified key) or not
+			return rt.NewEnvError("json")
+		}
+		if headerPtr == nil {
+			// the jwt view: only "alg" is looked up; it is the text the struct view will report
+			if jwtHeader == nil {
+				jwtView = &jwsProtectedHeader{}
+				rt.HavocInto(jwtView, "protected")
+				jwtHeader = map[string]interface{}{}
+				if rt.Choose("alg.in.map", 2) == 1 {
+					jwtHeader["alg"] = jwtView.Algorithm
+					algInMap = true
+				}
+				algInMapAsked = true
+			}
+			*p = jwtHeader
+			return nil
 		}
 		setupExtras()
 		if theExt == nil {
@@ -219,10 +249,9 @@ func stubJSONUnmarshal(data []byte, v any) error {
 		*p = theExt
 		return nil
 	}
-	return jsonUnmarshalOther(data, v)
+	rt.Fail("unexpected json.Unmarshal target")
+	return nil
 }
-
-var jsonUnmarshalOther = func(data []byte, v any) error { rt.Fail("unexpected json.Unmarshal target"); return nil }
 
 // (*json.Decoder).Decode into jwt.MapClaims: the payload is some JSON document; an object (or null) decodes, anything else fails
 var claimsDecodeErr, claimsDecoded bool
